@@ -222,6 +222,9 @@ class Interp:
             return self.ev(children(n)[0])
         if k == 'CXXDefaultArgExpr':
             return self.ev(children(n)[0])
+        if k == 'ArraySubscriptExpr':
+            # an element of an array the interpreter does not model: an atom of the scenario (env / '<atom>' hook)
+            return self.atom(path_key(n), self.kind_of(n))
         raise Unsupported('expression kind %s at line %s' % (k, n.get('l')))
 
     UNSIGNED_BITS = {'unsigned char': 8, 'unsigned short': 16, 'unsigned int': 32, 'unsigned long': 64,
